@@ -5,11 +5,12 @@ set -u
 PATCH=$(readlink -f "$1"); shift
 WT=${WT:-/tmp/wt-eval}
 if [ ! -d $WT ]; then git -C /repo worktree add -q --detach $WT HEAD; fi
+git -C $WT reset -q --hard 2>/dev/null
 git -C $WT checkout -q --detach $(git -C /repo rev-parse HEAD) 2>/dev/null
-git -C $WT checkout -q -- . ; git -C $WT clean -fdq
-git -C $WT apply "$PATCH" 2>/dev/null || git -C $WT apply --3way "$PATCH" || { echo "PATCH DOES NOT APPLY"; exit 3; }
+git -C $WT reset -q --hard 2>/dev/null; git -C $WT clean -fdq
+git -C $WT apply "$PATCH" 2>/dev/null || git -C $WT apply --3way "$PATCH" 2>/dev/null || { git -C $WT reset -q --hard; echo "PATCH DOES NOT APPLY"; exit 3; }
 git -C $WT reset -q 2>/dev/null
 for p in "$@"; do
   VERIF_EVIDENCE_DIR=/tmp/seed-evidence VERIF_REPLAY_DIR=/tmp/seed-replays VERIF_REPO=$WT VERIF_DIR=/verif /verif/check $p ${TIER:-quick} 2>&1 | grep -v "^built\|KNOWN-FINDING" | cut -c1-260 | head -${LINES_MAX:-6}
 done
-git -C $WT checkout -q -- . ; git -C $WT clean -fdq
+git -C $WT reset -q --hard 2>/dev/null; git -C $WT clean -fdq
